@@ -78,6 +78,8 @@ type action struct {
 	PNames []string // methods: parameter names (nil = no Parameters list)
 	Ret    *sigen.T // methods only
 	Bare   bool     // signals / properties with one parameter: signature not tuple-wrapped
+	// free text of a method (descriptions family): nothing of it may disturb the round trip
+	Desc, RetDesc, PDesc string
 }
 
 type iface struct {
@@ -108,11 +110,12 @@ func (p pkg) metas() map[string]object.MetaObject {
 		for _, a := range it.Actions {
 			switch a.Kind {
 			case 'm':
-				mm := object.MetaMethod{Uid: a.ID, Name: a.Name, ParametersSignature: a.tuple(), ReturnSignature: a.Ret.Sig()}
+				mm := object.MetaMethod{Uid: a.ID, Name: a.Name, ParametersSignature: a.tuple(), ReturnSignature: a.Ret.Sig(),
+					Description: a.Desc, ReturnDescription: a.RetDesc}
 				if a.PNames != nil {
 					mm.Parameters = []object.MetaMethodParameter{}
 					for i := range a.Params {
-						mm.Parameters = append(mm.Parameters, object.MetaMethodParameter{Name: a.PNames[i]})
+						mm.Parameters = append(mm.Parameters, object.MetaMethodParameter{Name: a.PNames[i], Description: a.PDesc})
 					}
 				}
 				m.Methods[a.ID] = mm
@@ -918,6 +921,40 @@ func property(id uint32, name string, params ...*sigen.T) action {
 	return action{Kind: 'p', ID: id, Name: name, Params: params}
 }
 
+// descriptionPool: free text a meta-object may carry (seed C18-17 appended the method
+// description, unescaped, to the uid comment of the generated IDL).
+var descriptionPool = []string{
+	"", "returns the answer", "  blanks around  ", "ends with a newline\n", "two\nlines", "three\nlines\nof text",
+	"first line\n\tfn injected() //uid:300", "first line\nfn injected(a: int32) -> str //uid:301", "x\n\tsig leaked(a: int32) //uid:302",
+	"x\nend\ninterface Other\n\tfn f() //uid:100\nend", "x\nend", "//uid:7", "uid:9", "see //uid:8 above", "a // b", "/* c */", "CR\r\nLF", "tab\tseparated",
+	"-> int32", "(a: int32)", "fn", "caf\u00e9 \u4e16\u754c", "\n", "\n\n", "trailing blank ", "#!", "struct S\n\ta: int32\nend",
+}
+
+func genDescriptions(emit func(pkg) bool) {
+	i, s := sigen.A('i'), sigen.A('s')
+	for _, d := range descriptionPool {
+		for pos := 0; pos < 4; pos++ {
+			m := method(100, "m", s, i)
+			switch pos {
+			case 0:
+				m.Desc = d
+			case 1:
+				m.RetDesc = d
+			case 2:
+				m.PDesc = d
+			case 3:
+				m.Desc, m.RetDesc, m.PDesc = d, d, d
+			}
+			if !emit(one("Svc", m)) {
+				return
+			}
+			if !emit(one("Svc", m, method(101, "n", i, s), signal(102, "s", i), property(103, "p", s))) {
+				return
+			}
+		}
+	}
+}
+
 var structPool = []string{"A", "Bb", "C_1", "d", "Pair<double>", "E9", "F", "G", "H"}
 
 // rename gives the structs of all the listed types content-determined names.
@@ -1698,6 +1735,7 @@ func main() {
 		maxD = 48
 	}
 	runRound("depths", depthsUniverse(maxD), func(emit func(pkg) bool) { genDepths(maxD, emit) })
+	runRound("descriptions", fmt.Sprintf("free text: %d description strings (empty, one line, blanks around, trailing newline, two lines, a second line that reads as an action / a uid comment / end / an interface, CR LF, tabs, comment markers, non-ASCII) as the description of a method, of its return value and of its parameters, alone and next to a second method", len(descriptionPool)), genDescriptions)
 	runRound("ids", fmt.Sprintf("action ids at the integer boundaries: every id of %d on a method, a signal and a property (alone; between two actions of the same kind with ids id-11 and id+11; on all three kinds at once) and every ordered pair of these ids on two methods of one interface", boundaryIDs), genIDs)
 	runTotal("ladders", "nesting ladders of depth 1..24 (Vec<, Map<str,, Tuple<, Tuple<int32,; closed and unterminated) in a struct member and in a method, repeated unterminated blocks", genLadders)
 	runTotal("damaged", "every prefix and every single-character deletion of 3 generated IDL texts", genDamaged)
@@ -1833,7 +1871,7 @@ func main() {
 		"rule": "every element of each family's stated universe is generated and judged. distinct_nontrivial = number of distinct (package abstraction, outcome class) pairs of the round-trip families " +
 			"(abstraction = interfaces / action kinds / id class / type shapes with atoms reduced to int/flt/bool/str/any/obj/unk and every name reduced to its lexical class) " +
 			"+ number of distinct blank-normalised token texts that ParseIDL ACCEPTED in the totality families (rejected texts are counted as trivial). " +
-			"Round-trip families: names, actions, packages, emitted, types, pairs, depths (containers nested 1..24, thorough 48, deep in every position), widths (structs and tuples of 0..N members in every position, parameter / action / interface counts from 0), ids (action ids at the integer boundaries). " +
+			"Round-trip families: descriptions (free text of methods, return values and parameters), names, actions, packages, emitted, types, pairs, depths (containers nested 1..24, thorough 48, deep in every position), widths (structs and tuples of 0..N members in every position, parameter / action / interface counts from 0), ids (action ids at the integer boundaries). " +
 			"Totality families (ladders, damaged, pkgnames, identshapes, numerals, numeral-pairs, nametokens, tokens) are judged by: ParseIDL returns meta-objects or an error, never a panic and never both; " +
 			"in pkgnames / identshapes / nametokens (identifier-shape dimension: names of every lexical shape of the package-name and identifier tokens, as package name and in every identifier role) ParsePackage is called directly too and must return a package or an error, never a panic, never neither; " +
 			"so it is in numerals / numeral-pairs (numeric-literal dimension: every numeral of the pool in the enum-constant position and in the //uid: position of every comment the grammar admits, alone and in otherwise valid declarations), " +
